@@ -1,2 +1,141 @@
+(* C15/Properties.v — property theorems only: statement, `exact`, Print Assumptions.
+   Vocabulary: a history is the list of Model.event of a timer system in the order
+   they happen; Spec.accepted strict res t0 h = the checker of Spec.v accepts h. *)
 From Coq Require Import ZArith List Bool.
 From C15 Require Import Generated Model Spec Proofs.
+Import ListNotations.
+Open Scope Z_scope.
+
+(* The translator recognised _call_periodic / KGTimerHandler / eval_sys_fn_timer /
+   eval_sys_fn_cancel_timer / KGFnWrapper; holds by computation on Generated.v only. *)
+Theorem C15_source_shape : timer_shape_ok = true.
+Proof. exact eq_refl. Qed.
+Print Assumptions C15_source_shape.
+
+(* T15.arith: the delay formula of the pinned source and the boundary index of the
+   repaired one name the same instant: the first boundary strictly after `now`. *)
+Theorem C15_rearm_arith : forall start iv now, 0 < iv ->
+  now + (iv - (now - start) mod iv) = start + ((now - start) / iv + 1) * iv /\
+  now < start + ((now - start) / iv + 1) * iv <= now + iv.
+Proof. exact (fun start iv now H => conj (rearm_arith start iv now H) (rearm_after_now start iv now H)). Qed.
+Print Assumptions C15_rearm_arith.
+
+(* The deadline the checker demands after a true return is a boundary, later than the
+   boundary just served (never twice the same), later than the completion time (never
+   before a boundary that has not come), and the first such (missed ones are skipped, none added). *)
+Theorem C15_next_due_is_first_later_boundary : forall start iv n t, 0 < iv ->
+  let m := Z.max (n + 1) ((t - start) / iv + 1) in
+  next_due start iv (start + n * iv) t = start + m * iv /\ n < m /\ t < start + m * iv /\
+  forall k, n < k -> t < start + k * iv -> m <= k.
+Proof.
+  exact (fun start iv n t H =>
+    let '(conj a (conj b c)) := next_due_later start iv n t H in
+    conj a (conj b (conj c (fun k => next_due_first start iv n t k H)))).
+Qed.
+Print Assumptions C15_next_due_is_first_later_boundary.
+
+(* T15.ticks (main): EVERY history of the model of the checked-out source is accepted by the
+   checker: any number of timers with intervals >= 0 created at any times, any callback scripts of
+   any length (durations, return values, .timerc of itself / another timer / a non-timer,
+   redefinition, raise), any external .timerc / redefinitions, any dispatch latencies (early,
+   on time, late by any amount), either order of equal deadlines, any number of loop iterations.
+   The flags are those regenerated from the source; the term only type-checks while all four
+   compute to true. *)
+Theorem C15_ticks : forall cfg t0 xs ts lats fuel, 0 < c_res cfg ->
+  accepted false (c_res cfg) t0 (snd (simulate src_flags cfg t0 xs ts lats fuel)).
+Proof.
+  exact (fun cfg t0 xs ts lats fuel =>
+    simulate_accepted src_flags cfg t0 xs ts lats fuel
+      (conj (eq_refl : f_guard src_flags = true) (conj (eq_refl : f_clear src_flags = true)
+        (conj (eq_refl : f_mono src_flags = true) (eq_refl : f_resolve src_flags = true))))).
+Qed.
+Print Assumptions C15_ticks.
+
+(* What acceptance means (for histories of the model and of the real code alike). *)
+
+(* never again once the callback returned false / raised or .timerc reported success: no later tick,
+   and no second successful .timerc *)
+Theorem C15_never_again : forall strict res t0 a e b i,
+  accepted strict res t0 (a ++ e :: b) -> stops i e ->
+  (forall t d v, ~ In (EvTick i t d v) b) /\ (forall t, ~ In (EvCancel i t true) b).
+Proof. exact no_tick_after_stop. Qed.
+Print Assumptions C15_never_again.
+
+(* never overlapping: between the start of a callback and the start of any other one lies its end *)
+Theorem C15_no_overlap : forall strict res t0 a i t d v mid j t' d' v' b,
+  accepted strict res t0 (a ++ EvTick i t d v :: mid ++ EvTick j t' d' v' :: b) ->
+  exists te o, In (EvEnd i te o) mid.
+Proof. exact no_overlap. Qed.
+Print Assumptions C15_no_overlap.
+
+(* once per elapsed interval while the callback returns true: consecutive ticks of a timer are
+   separated by a true return, and the later one serves exactly next_due of the earlier *)
+Theorem C15_consecutive_ticks : forall strict res t0 a i t1 d1 v1 mid t2 d2 v2 b,
+  accepted strict res t0 (a ++ EvTick i t1 d1 v1 :: mid ++ EvTick i t2 d2 v2 :: b) ->
+  (forall t d v, ~ In (EvTick i t d v) mid) ->
+  exists s iv te, In (EvCreate i s iv) a /\ In (EvEnd i te RetTrue) mid /\ t1 <= te /\ d2 = next_due s iv d1 te.
+Proof. exact consecutive_ticks. Qed.
+Print Assumptions C15_consecutive_ticks.
+
+(* T15.timerc: .timerc returns 1 exactly for a timer that was created and not stopped before *)
+Theorem C15_timerc_exact : forall strict res t0 a j t r b,
+  accepted strict res t0 (a ++ EvCancel j t r :: b) -> (r = true <-> live_history j a).
+Proof. exact timerc_exact. Qed.
+Print Assumptions C15_timerc_exact.
+
+(* "never before an interval boundary", literally: holds for every history whose ticks were
+   dispatched at or after their deadline ... *)
+Theorem C15_strict_holds_outside_early_dispatch : forall cfg t0 xs ts lats fuel, 0 < c_res cfg ->
+  Forall tick_on_time (snd (simulate src_flags cfg t0 xs ts lats fuel)) ->
+  accepted true (c_res cfg) t0 (snd (simulate src_flags cfg t0 xs ts lats fuel)).
+Proof.
+  exact (fun cfg t0 xs ts lats fuel Hres Hon =>
+    strict_accepts_on_time (c_res cfg) _ (mstate0 t0) Hon
+      (simulate_accepted src_flags cfg t0 xs ts lats fuel
+        (conj (eq_refl : f_guard src_flags = true) (conj (eq_refl : f_clear src_flags = true)
+          (conj (eq_refl : f_mono src_flags = true) (eq_refl : f_resolve src_flags = true)))) Hres)).
+Qed.
+Print Assumptions C15_strict_holds_outside_early_dispatch.
+
+(* ---- witnesses ---------------------------------------------------------------------- *)
+Definition cfgw := mk_config 1024 false.
+Definition sec := 1048576.
+Definition rejected (fl : flags) strict xs ts lats : Prop :=
+  mon_run strict 1024 (mstate0 0) (snd (simulate fl cfgw 0 xs ts lats 8)) = None.
+
+(* ... and fails under an event loop that dispatches within its clock resolution before the
+   deadline (asyncio's rule): known finding C15-early-within-resolution *)
+Theorem C15_strict_early_refuted :
+  rejected (mk_flags true true true true) true [] [mk_tspec 0 sec [mk_step 0 true ANone; default_step]] [-512].
+Proof. vm_compute. reflexivity. Qed.
+
+(* R9, first class (repaired by the guard): cancel-self inside the callback, then return true *)
+Theorem C15_self_cancel_refuted_without_guard :
+  rejected (mk_flags false true true true) false [] [mk_tspec 0 sec [mk_step 0 true (ACancel 0); default_step]] [].
+Proof. vm_compute. reflexivity. Qed.
+
+(* R9, second class (repaired by clearing the delegate): .timerc after a raising callback returned 1 *)
+Theorem C15_raise_refuted_without_clear :
+  rejected (mk_flags true false true true) false [(3 * sec, XCancel 0)] [mk_tspec 0 sec [mk_step 0 true ARaise]] [].
+Proof. vm_compute. reflexivity. Qed.
+
+(* R9, third class (repaired by the monotone re-arm): early dispatch armed the same boundary twice *)
+Theorem C15_early_rearm_refuted_without_mono :
+  rejected (mk_flags true true false true) false [] [mk_tspec 0 sec [mk_step 0 true ANone; default_step]] [-512].
+Proof. vm_compute. reflexivity. Qed.
+
+(* T15.resolve: without the lookup at every call a redefinition would not take effect *)
+Theorem C15_resolve_refuted_without_lookup :
+  rejected (mk_flags true true true false) false [] [mk_tspec 0 sec [mk_step 0 true (ARedef 0); default_step]] [].
+Proof. vm_compute. reflexivity. Qed.
+
+(* Non-vacuity: a concrete system (two timers, a slow callback that misses two boundaries, a
+   cancel of the other timer, an external .timerc, early and late dispatch) whose history has
+   16 events, is accepted, and ends idle. *)
+Example C15_ticks_example :
+  let tr := snd (simulate src_flags cfgw 7 [(6 * sec, XCancel 0)]
+                  [mk_tspec 0 sec [mk_step (2 * sec + 5) true ANone; mk_step 0 true (ACancel 1); mk_step 0 true ANone];
+                   mk_tspec 3 (2 * sec) [mk_step 0 true (ARedef 1); mk_step 0 true ANone]]
+                  [-512; 100; 0; 3 * sec] 40) in
+  length tr = 16%nat /\ last tr EvIdle = EvIdle /\ mon_run false 1024 (mstate0 7) tr <> None.
+Proof. vm_compute. repeat split; discriminate. Qed.
